@@ -1,7 +1,8 @@
 /-
   Edge locality as an invariant of the builder's stores (helper lemmas for Props/C01, section ProgramLevel).
 
-  `LocInv s`: every link of `s` whose target offset is a value offset (≥ 0) joins a source to a target that has an
+  `LocInv s`: every link of `s` whose target offset is a value offset (≥ 0) and whose target is not the static
+  input port of a `Call` / `LoadConstant` / `LoadFunction` (static edges: the builders do not check their locality) joins a source to a target that has an
   ancestor-or-self `anc` with the same parent as the source, and when that ancestor is not the target itself (the link
   enters a nested region) the state-order link `source → anc` is present — rules R6.relation and R6.order_edge of
   `Validate.lean`, stated on the store.  The lemmas here show that every store step the plain dataflow builders take
@@ -14,14 +15,25 @@ import HugrVerif.Props.C13
 namespace HugrVerif.BuildLocal
 open HugrVerif HugrVerif.Build HugrVerif.Store HugrVerif.Props
 
-/-- nodes that exist keep their parent, links are kept -/
+/-- the offset of the static input port (§4.1 of DESIGN: after the value inputs of a `Call`, port 0 of the loads) -/
+def staticIn : Op → Option Nat
+  | .call _ inst _ => some inst.inp.length
+  | .loadConst _ => some 0
+  | .loadFunc .. => some 0
+  | _ => none
+
+/-- nodes that exist keep their parent and the position of their static input port, links are kept -/
 structure HFrame (s s' : St) : Prop where
   par : ∀ i p, nodeParent s i = .ok p → nodeParent s' i = .ok p
   links : ∀ l ∈ linksList s, l ∈ linksList s'
+  stat : ∀ i op, nodeOp s i = .ok op → ∃ op', nodeOp s' i = .ok op' ∧ staticIn op' = staticIn op
 
-theorem HFrame.refl (s : St) : HFrame s s := ⟨fun _ _ h => h, fun _ h => h⟩
+theorem HFrame.refl (s : St) : HFrame s s := ⟨fun _ _ h => h, fun _ h => h, fun _ op h => ⟨op, h, rfl⟩⟩
 theorem HFrame.trans {a b c : St} (h1 : HFrame a b) (h2 : HFrame b c) : HFrame a c :=
-  ⟨fun i p h => h2.par i p (h1.par i p h), fun l h => h2.links l (h1.links l h)⟩
+  ⟨fun i p h => h2.par i p (h1.par i p h), fun l h => h2.links l (h1.links l h), fun i op h => by
+    obtain ⟨op1, e1, q1⟩ := h1.stat i op h
+    obtain ⟨op2, e2, q2⟩ := h2.stat i op1 e1
+    exact ⟨op2, e2, q2.trans q1⟩⟩
 
 theorem anc_frame {s s' : St} (F : HFrame s s') {a b : Nat} (h : Anc s a b) : Anc s' a b := by
   induction h with
@@ -33,53 +45,87 @@ def Local (s : St) (l : Port × Port) : Prop :=
   ∃ anc p, nodeParent s l.1.1 = .ok (some p) ∧ Anc s l.2.1 anc ∧ nodeParent s anc = .ok (some p) ∧
     (anc ≠ l.2.1 → ((l.1.1, (-1 : Int)), (anc, (-1 : Int))) ∈ linksList s)
 
-def LocInv (s : St) : Prop := ∀ l ∈ linksList s, 0 ≤ l.2.2 → Local s l
+/-- the link ends at the static input port of its target -/
+def StaticTgt (s : St) (l : Port × Port) : Prop := ∃ op, nodeOp s l.2.1 = .ok op ∧ staticIn op = some l.2.2.toNat
+
+theorem static_frame {s s' : St} (F : HFrame s s') {l : Port × Port} (h : StaticTgt s l) : StaticTgt s' l := by
+  obtain ⟨op, e, q⟩ := h
+  obtain ⟨op', e', q'⟩ := F.stat _ op e
+  exact ⟨op', e', q'.trans q⟩
+
+def LocInv (s : St) : Prop := ∀ l ∈ linksList s, 0 ≤ l.2.2 → ¬ StaticTgt s l → Local s l
 
 theorem local_frame {s s' : St} (F : HFrame s s') {l : Port × Port} (h : Local s l) : Local s' l := by
   obtain ⟨anc, p, e1, e2, e3, e4⟩ := h
   exact ⟨anc, p, F.par _ _ e1, anc_frame F e2, F.par _ _ e3, fun hne => F.links _ (e4 hne)⟩
 
 theorem locInv_step {s s' : St} (F : HFrame s s') (h : LocInv s)
-    (hnew : ∀ l ∈ linksList s', l ∉ linksList s → 0 ≤ l.2.2 → Local s' l) : LocInv s' := by
-  intro l hl hv
+    (hnew : ∀ l ∈ linksList s', l ∉ linksList s → 0 ≤ l.2.2 → ¬ StaticTgt s' l → Local s' l) : LocInv s' := by
+  intro l hl hv hns
   by_cases hm : l ∈ linksList s
-  · exact local_frame F (h l hm hv)
-  · exact hnew l hl hm hv
+  · exact local_frame F (h l hm hv (fun hst => hns (static_frame F hst)))
+  · exact hnew l hl hm hv hns
 
 theorem locInv_same_links {s s' : St} (F : HFrame s s') (h : LocInv s)
     (hl : ∀ l ∈ linksList s', l ∈ linksList s) : LocInv s' :=
-  locInv_step F h (fun l hl' hn _ => absurd (hl l hl') hn)
+  locInv_step F h (fun l hl' hn _ _ => absurd (hl l hl') hn)
 
 /-! ### frames of the store steps -/
 
+theorem grow_nodeOp {s s' : St} (G : StoreGrow s s') (i : Nat) (op : Op) (h : nodeOp s i = .ok op) :
+    nodeOp s' i = .ok op := by
+  unfold nodeOp at h ⊢
+  cases hg : Store.getNode s i with
+  | error e => simp [hg] at h
+  | ok d =>
+    simp only [hg] at h
+    obtain ⟨d', e1, g⟩ := G.fwd i d hg
+    simp only [e1]; rw [g.op]; exact h
+
 theorem hframe_of_grow {s s' : St} (G : StoreGrow s s') (hl : ∀ l ∈ linksList s, l ∈ linksList s') : HFrame s s' :=
-  ⟨fun i p h => by rw [grow_nodeParent s s' G i]; exact h, hl⟩
+  ⟨fun i p h => by rw [grow_nodeParent s s' G i]; exact h, hl, fun i op h => ⟨op, grow_nodeOp G i op h, rfl⟩⟩
 
 theorem linksList_of_links_eq {s s' : St} (h : s'.links = s.links) : linksList s' = linksList s := by
   simp [linksList, h]
 
-/-- `modifyNode` with a function that keeps the parent -/
+/-- `modifyNode` with a function that keeps the parent and the static port -/
 theorem modifyNode_frame (s s' : St) (i : Nat) (f : NodeData Op Serial.Meta → NodeData Op Serial.Meta)
-    (hf : ∀ d, (f d).parent = d.parent) (h : Store.modifyNode s i f = .ok s') :
+    (hf : ∀ d, (f d).parent = d.parent) (hst : ∀ d, Store.getNode s i = .ok d → staticIn (f d).op = staticIn d.op)
+    (h : Store.modifyNode s i f = .ok s') :
     HFrame s s' ∧ linksList s' = linksList s ∧ s'.links = s.links := by
   have hlk := Build.modifyNode_links s s' i f h
   have hll := linksList_of_links_eq hlk
-  refine ⟨⟨?_, fun l hl => by rw [hll]; exact hl⟩, hll, hlk⟩
-  intro j p hp
-  unfold nodeParent at hp ⊢
-  rw [Store.modifyNode_get s s' i j f h]
-  cases hg : Store.getNode s j with
-  | error e => simp [hg] at hp
-  | ok d =>
-    simp only [hg] at hp
-    by_cases hji : j = i
-    · simp only [hji, if_true, Except.map]
-      subst hji
-      simp only [hg]
-      rw [hf d]; exact hp
-    · simp only [hji, if_false]; exact hp
+  refine ⟨⟨?_, fun l hl => by rw [hll]; exact hl, ?_⟩, hll, hlk⟩
+  · intro j p hp
+    unfold nodeParent at hp ⊢
+    rw [Store.modifyNode_get s s' i j f h]
+    cases hg : Store.getNode s j with
+    | error e => simp [hg] at hp
+    | ok d =>
+      simp only [hg] at hp
+      by_cases hji : j = i
+      · simp only [hji, if_true, Except.map]
+        subst hji
+        simp only [hg]
+        rw [hf d]; exact hp
+      · simp only [hji, if_false]; exact hp
+  · intro j op hp
+    unfold nodeOp at hp ⊢
+    rw [Store.modifyNode_get s s' i j f h]
+    cases hg : Store.getNode s j with
+    | error e => simp [hg] at hp
+    | ok d =>
+      simp only [hg] at hp
+      injection hp with hp
+      by_cases hji : j = i
+      · simp only [hji, if_true, Except.map]
+        subst hji
+        simp only [hg]
+        exact ⟨(f d).op, rfl, by rw [hst d hg, hp]⟩
+      · simp only [hji, if_false]; exact ⟨op, by rw [hp], rfl⟩
 
-theorem setOp_frame (s s' : St) (i : Nat) (op : Op) (h : setOp s i op = .ok s') :
+theorem setOp_frame (s s' : St) (i : Nat) (op : Op)
+    (hst : ∀ op0, nodeOp s i = .ok op0 → staticIn op = staticIn op0) (h : setOp s i op = .ok s') :
     HFrame s s' ∧ linksList s' = linksList s ∧ s'.links = s.links := by
   unfold setOp liftS at h
   cases hm : Store.modifyNode s i (fun d => { d with op := op }) with
@@ -87,24 +133,35 @@ theorem setOp_frame (s s' : St) (i : Nat) (op : Op) (h : setOp s i op = .ok s') 
   | ok s1 =>
     simp only [hm] at h
     injection h with h; subst h
-    exact modifyNode_frame s s1 i (fun d => { d with op := op }) (fun _ => rfl) hm
+    refine modifyNode_frame s s1 i (fun d => { d with op := op }) (fun _ => rfl) ?_ hm
+    intro d hd
+    exact hst d.op (by unfold nodeOp; simp [hd])
 
 theorem updateNodeOuts_frame (s s' : St) (i k : Nat) (h : Store.updateNodeOuts s i k = .ok s') :
     HFrame s s' ∧ linksList s' = linksList s ∧ s'.links = s.links := by
   have hlk := Build.updateNodeOuts_links s s' i k h
   have hll := linksList_of_links_eq hlk
   obtain ⟨E, _⟩ := Store.updateNodeOuts_spec s s' i k h
-  refine ⟨⟨?_, fun l hl => by rw [hll]; exact hl⟩, hll, hlk⟩
-  intro j p hp
-  unfold nodeParent at hp ⊢
-  cases hg : Store.getNode s j with
-  | error e => simp [hg] at hp
-  | ok d =>
-    simp only [hg] at hp
-    obtain ⟨d', hd', hs⟩ := E.fwd j d hg
-    simp only [hd']
-    rw [hs.1.parent]; exact hp
-
+  refine ⟨⟨?_, fun l hl => by rw [hll]; exact hl, ?_⟩, hll, hlk⟩
+  · intro j p hp
+    unfold nodeParent at hp ⊢
+    cases hg : Store.getNode s j with
+    | error e => simp [hg] at hp
+    | ok d =>
+      simp only [hg] at hp
+      obtain ⟨d', hd', hs⟩ := E.fwd j d hg
+      simp only [hd']
+      rw [hs.1.parent]; exact hp
+  · intro j op hp
+    unfold nodeOp at hp ⊢
+    cases hg : Store.getNode s j with
+    | error e => simp [hg] at hp
+    | ok d =>
+      simp only [hg] at hp
+      injection hp with hp
+      obtain ⟨d', hd', hs⟩ := E.fwd j d hg
+      simp only [hd']
+      exact ⟨d'.op, rfl, by rw [hs.1.op, hp]⟩
 
 /-! ### the wiring step -/
 
@@ -225,6 +282,21 @@ theorem wireUpPorts_loc (node : Nat) : ∀ (ws : List Wire) (s s' : St) (i : Nat
         · exact local_frame b2 (a3 l hm1 hn hv)
         · exact b3 l hm hm1 hv
 
+theorem setInTypes_static (op : Op) (tys : List Ty) (op' : Op) (h : Op.setInTypes op tys = .ok op') :
+    staticIn op = none ∧ staticIn op' = none := by
+  unfold Op.setInTypes at h
+  split at h <;> (try (injection h with h; subst h; exact ⟨rfl, rfl⟩)) <;> (try cases h)
+  all_goals (repeat' split at h) <;> (try cases h) <;> (try (injection h with h; subst h))
+  all_goals exact ⟨rfl, rfl⟩
+
+theorem setOutTypes_static (re : List Ty → List Ty → Bool) (op : Op) (tys : List Ty) (op' : Op)
+    (h : Op.setOutTypes re op tys = .ok op') : staticIn op = none ∧ staticIn op' = none := by
+  unfold Op.setOutTypes at h
+  split at h <;> (try (injection h with h; subst h; exact ⟨rfl, rfl⟩)) <;> (try cases h)
+  all_goals (simp only [bind, Except.bind, pure, Except.pure, throw, throwThe, MonadExceptOf.throw] at h)
+  all_goals (repeat' split at h) <;> (try cases h) <;> (try (injection h with h; subst h))
+  all_goals exact ⟨rfl, rfl⟩
+
 theorem updatePortCount_frame (s s' : St) (node ni no : Nat) (h : updatePortCount s node ni no = .ok s') :
     HFrame s s' ∧ linksList s' = linksList s ∧ s'.links = s.links := by
   unfold updatePortCount liftS at h
@@ -232,7 +304,7 @@ theorem updatePortCount_frame (s s' : St) (node ni no : Nat) (h : updatePortCoun
   | error e => simp [h1] at h
   | ok s1 =>
     simp only [h1] at h
-    obtain ⟨f1, l1, k1⟩ := modifyNode_frame s s1 node (fun d => { d with numInps := ni }) (fun _ => rfl) h1
+    obtain ⟨f1, l1, k1⟩ := modifyNode_frame s s1 node (fun d => { d with numInps := ni }) (fun _ => rfl) (fun _ _ => rfl) h1
     cases h2 : Store.updateNodeOuts s1 node no with
     | error e => simp [h2] at h
     | ok s2 =>
@@ -258,7 +330,9 @@ theorem completeOp_frame (s s' : St) (node : Nat) (tys : List Ty) (h : completeO
         | error e => simp [h2] at h
         | ok s1 =>
           simp only [h2] at h
-          obtain ⟨f1, l1, k1⟩ := setOp_frame s s1 node op' h2
+          obtain ⟨f1, l1, k1⟩ := setOp_frame s s1 node op' (fun op0 h00 => by
+            rw [h0] at h00; injection h00 with h00; subst h00
+            exact (setInTypes_static op tys op' h1).2.trans (setInTypes_static op tys op' h1).1.symm) h2
           cases h3 : Op.outerSig op' with
           | error e => simp [h3] at h
           | ok sig =>
@@ -285,7 +359,7 @@ theorem wireUp_loc (s s' : St) (hl : LInv s.links) (hi : LocInv s) (node : Nat) 
       injection h with h; injection h with e1 e2; subst e1
       obtain ⟨a1, a2, a3⟩ := wireUpPorts_loc node ws s s1 0 tys1 hl h1
       obtain ⟨b1, b2, b3⟩ := completeOp_frame s1 s2 node tys1 h2
-      have i1 : LocInv s1 := locInv_step a2 hi a3
+      have i1 : LocInv s1 := locInv_step a2 hi (fun l hm hn hv _ => a3 l hm hn hv)
       exact ⟨by rw [b3]; exact a1, a2.trans b1, locInv_same_links b1 i1 (fun l hm => by rw [b2] at hm; exact hm)⟩
 
 
@@ -446,17 +520,28 @@ theorem addNode_loc (s s' : St) (hf : FreeInv s) (op : Op) (parent : Option Nat)
   unfold Store.addNode at h
   obtain ⟨fresh, _, keep, _, el, _, hf'⟩ := Store.addNodeRaw_spec s s' hf op _ k md n h
   have hll := linksList_of_links_eq el
-  refine ⟨hf', ⟨?_, fun l hl => by rw [hll]; exact hl⟩, hll, el⟩
-  intro j p hp
-  unfold nodeParent at hp ⊢
-  cases hg : Store.getNode s j with
-  | error e => simp [hg] at hp
-  | ok d =>
-    simp only [hg] at hp
-    have hji : j ≠ n := by intro e; subst e; exact fresh d hg
-    obtain ⟨d', hd', hs, _, _⟩ := keep j d hji hg
-    simp only [hd']
-    rw [hs.parent]; exact hp
+  refine ⟨hf', ⟨?_, fun l hl => by rw [hll]; exact hl, ?_⟩, hll, el⟩
+  · intro j p hp
+    unfold nodeParent at hp ⊢
+    cases hg : Store.getNode s j with
+    | error e => simp [hg] at hp
+    | ok d =>
+      simp only [hg] at hp
+      have hji : j ≠ n := by intro e; subst e; exact fresh d hg
+      obtain ⟨d', hd', hs, _, _⟩ := keep j d hji hg
+      simp only [hd']
+      rw [hs.parent]; exact hp
+  · intro j op0 hp
+    unfold nodeOp at hp ⊢
+    cases hg : Store.getNode s j with
+    | error e => simp [hg] at hp
+    | ok d =>
+      simp only [hg] at hp
+      injection hp with hp
+      have hji : j ≠ n := by intro e; subst e; exact fresh d hg
+      obtain ⟨d', hd', hs, _, _⟩ := keep j d hji hg
+      simp only [hd']
+      exact ⟨d'.op, rfl, by rw [hs.op, hp]⟩
 
 /-- the store invariant the plain dataflow builders maintain -/
 structure LInvS (s : St) : Prop where
@@ -474,8 +559,9 @@ theorem linvS_wireUp (s s' : St) (hs : LInvS s) (node : Nat) (ws : List Wire) (t
   obtain ⟨a1, _, a3⟩ := wireUp_loc s s' hs.links hs.loc node ws tys h
   exact ⟨a1, wireUp_free s s' hs.free node ws tys h, a3⟩
 
-theorem linvS_setOp (s s' : St) (hs : LInvS s) (i : Nat) (op : Op) (h : setOp s i op = .ok s') : LInvS s' := by
-  obtain ⟨f, l, k⟩ := setOp_frame s s' i op h
+theorem linvS_setOp (s s' : St) (hs : LInvS s) (i : Nat) (op : Op)
+    (hst : ∀ op0, nodeOp s i = .ok op0 → staticIn op = staticIn op0) (h : setOp s i op = .ok s') : LInvS s' := by
+  obtain ⟨f, l, k⟩ := setOp_frame s s' i op hst h
   exact ⟨by rw [k]; exact hs.links, setOp_free s s' hs.free i op h,
     locInv_same_links f hs.loc (fun x hm => by rw [l] at hm; exact hm)⟩
 
@@ -484,6 +570,24 @@ theorem linvS_updateNodeOuts (s s' : St) (hs : LInvS s) (i k : Nat) (h : Store.u
   obtain ⟨f, l, kk⟩ := updateNodeOuts_frame s s' i k h
   exact ⟨by rw [kk]; exact hs.links, updateNodeOuts_free s s' hs.free i k h,
     locInv_same_links f hs.loc (fun x hm => by rw [l] at hm; exact hm)⟩
+
+/-- a link into the static input port of its target (`call`, `load`, `load_function`) -/
+theorem linvS_addStaticLink (s s' : St) (hs : LInvS s) (a : Port) (n off : Nat)
+    (hst : ∃ op, nodeOp s n = .ok op ∧ staticIn op = some off) (h : Store.addLink s a (n, (off : Int)) = .ok s') :
+    LInvS s' := by
+  obtain ⟨a1, a2, a3⟩ := addLink_loc s s' hs.links _ _ h
+  have F : HFrame s s' := hframe_of_grow a2 (fun l hm => by rw [a3]; simp [hm])
+  refine ⟨a1, addLink_free s s' hs.free _ _ h, locInv_step F hs.loc ?_⟩
+  intro l hm hn _ hns
+  rw [a3] at hm
+  have : l = (a, (n, (off : Int))) := by
+    rcases List.mem_append.mp hm with h' | h'
+    · exact absurd h' hn
+    · simpa using h'
+  subst this
+  exfalso; apply hns
+  obtain ⟨op, e, q⟩ := hst
+  exact static_frame F ⟨op, e, by simpa using q⟩
 
 theorem linvS_init (op : Op) (md : Serial.Meta) : LInvS (Store.init op md : St) := by
   have h := Store.sinv_init (μ := Serial.Meta) op md
